@@ -69,8 +69,10 @@ class C18(Prop):
             try:
                 mod = importlib.import_module(f"vlib.props.{modname}")
                 # suites that exist for the thread-safe flavour only (lock traces, preemption injection) have no twin
+                # (cases their own check judges by its oracle alone have no model to be the third party here)
                 cs = [c for c in mod.PROP.cases("quick", seed)
-                      if c.flavor in TWIN and c.suite not in ("inject", "locks", "behaviorrace", "coop")]
+                      if c.flavor in TWIN and c.suite not in ("inject", "locks", "behaviorrace", "coop")
+                      and not mod.PROP.compare_from(c)]
                 rng.shuffle(cs)
                 for c in cs[: cap if tier == "quick" else cap * 5]:
                     d = c.copy()
